@@ -174,6 +174,8 @@ Section Table.
   Hypothesis Hpseudo : bytes_eqb v pseudo_id_version = false.
   Hypothesis Hsender : shaped 64 sender.
   Hypothesis Hroom : shaped 33 room.
+  (* the event is otherwise valid: its room ID is one spec.NewRoomID accepts (repair of F9) *)
+  Hypothesis Hroomvalid : room_valid room = true.
 
   Let verdict_of := event_checks struct v false json_len type sk sender room.
 
@@ -203,7 +205,8 @@ Section Table.
                  end.
   Proof.
     unfold verdict_of, event_checks, check_room. rewrite Hstruct.
-    rewrite (check_id_shaped 33 room Hroom). reflexivity.
+    rewrite (check_id_shaped 33 room Hroom).
+    destruct (check_id_length room); rewrite ?Hroomvalid; reflexivity.
   Qed.
 
   Lemma table_ok : all_within_limits -> verdict_of = VOk.
